@@ -24,6 +24,8 @@ THEOREMS = [
     dict(name="Snow.C09.row_sum_zero", clause="rows of H_int = k*A*(adj - diag deg) sum to zero", strength="full"),
     dict(name="Snow.C09.col_sum_zero", clause="columns of H_int sum to zero", strength="full"),
     dict(name="Snow.C09.heat_cancels", clause="heat exchanged between vials sums to zero over the batch for every temperature vector", strength="full"),
+    dict(name="Snow.C09.H_int_eq", clause="H_int[i,j] = k_int*A*([i,j exchange heat] - [i=j]*deg i) for all shapes", strength="full"),
+    dict(name="Snow.C09.H_ext_eq", clause="H_ext[i] = k_ext*A*(maxNbr - geometric neighbours), without truncation", strength="full"),
     dict(name="Snow.C09.upstream_double_count_witness", clause="the y-pattern before fix F2 counts the pair (0,2) of a 2x1x2 square pallet twice", strength="refutation-of-old-code"),
     dict(name="Snow.C09.nonvacuous", clause="hypotheses are satisfiable (concrete shapes with neighbours of every kind)", strength="nonvacuity"),
 ]
